@@ -23,6 +23,7 @@ func runC11(c *Check, tier string) {
 	ruleR11c(c)
 	ruleR11d(c)
 	ruleR11e(c)
+	ruleR11f(c)
 }
 
 func isNoReturnCall(in ssa.Instruction) bool {
@@ -445,6 +446,81 @@ func ruleR11d(c *Check) {
 	if !done {
 		c.Bad("R11d", "constraint-resolves-all-kinds", "the dependency-constraint check has no resolution through aliases at all", c.P.Pos(ctc.Pos()))
 	}
+}
+
+// R11f: the cycle search is started from every node.
+func ruleR11f(c *Check) {
+	c.Rule("R11f", "the cycle search starts its depth-first search in a loop over all nodes of the graph, and that loop is never left early with the verdict 'no cycle' (a search from one start node says nothing about the nodes it did not reach)", 2)
+	fc := anchor(c, "R11f", "dag", "DirectedTargetGraph", "FindCycle")
+	if fc == nil {
+		return
+	}
+	fname := c.P.FuncName(fc)
+	lits := map[*ssa.Function]bool{}
+	for _, f := range engine.AnonFuncsDeep(fc) {
+		if f != fc {
+			lits[f] = true
+		}
+	}
+	negative := func(in ssa.Instruction) bool {
+		r, ok := in.(*ssa.Return)
+		if !ok || in.Parent() != fc || len(r.Results) != 2 {
+			return false
+		}
+		k, isK := engine.BoolConst(r.Results[1])
+		return !(isK && k)
+	}
+	nodesKey := fk("dag.DirectedTargetGraph", "nodes")
+	allNodes := 0
+	searching := 0
+	for _, lp := range engine.LoopsOf(fc) {
+		searches := false
+		for b := range lp.Body {
+			for _, in := range b.Instrs {
+				if cs, ok := in.(ssa.CallInstruction); ok {
+					for _, f := range c.G.CalleesOf(cs) {
+						if lits[f] {
+							searches = true
+						}
+					}
+				}
+			}
+		}
+		if !searches {
+			continue
+		}
+		searching++
+		rv := lp.RangedValue()
+		if rv != nil && lp.IsFullRange() {
+			over := false
+			for _, o := range engine.Origins(rv) {
+				if o == nil {
+					continue
+				}
+				if isLoadOfField(o, nodesKey) {
+					over = true
+				}
+				// a listing of the node map (sorted, say): a model-package function of the whole map
+				if call, _ := engine.CallOf(o); call != nil {
+					for _, a := range call.Common().Args {
+						if isLoadOfField(a, nodesKey) && len(call.Common().Args) == 1 {
+							over = true
+						}
+					}
+				}
+			}
+			if over {
+				allNodes++
+			}
+		}
+		why := lp.EarlyExitReaches(negative)
+		c.Require(why == "", "R11f", "search-loop-no-early-negative/"+fname, "the loop that starts searches is left early only with 'cycle found'", "the loop over the start nodes can be left with the verdict 'no cycle' before every node was tried ("+why+"): a cycle that is not reachable from the nodes tried so far is accepted", c.P.Pos(fc.Pos()))
+	}
+	if searching == 0 {
+		c.Unknown("R11f", "search-from-every-node/"+fname, "no loop that starts the recursive search was recognised", c.P.Pos(fc.Pos()))
+		return
+	}
+	c.Require(allNodes > 0, "R11f", "search-from-every-node/"+fname, "a full range over the graph's nodes starts a search from every node not visited yet", "no loop over all nodes of the graph starts the search: cycles among nodes that are not reachable from the chosen start set are never seen", c.P.Pos(fc.Pos()))
 }
 
 // R11e: overlap predicates are evaluated for all pairs
